@@ -1,5 +1,6 @@
 import asyncio
 import functools as ft
+import inspect
 import itertools as it
 import json
 import logging
@@ -67,6 +68,14 @@ class Method:
 
         return ft.partial(self.method, *method_args, **method_kwargs)
 
+    @property
+    def injected_params(self) -> Tuple[str, ...]:
+        """
+        Names of the parameters of :py:attr:`method` that are supplied by the server and not by the client.
+        """
+
+        return (self.context,) if self.context else ()
+
     def copy(self, **kwargs: Any) -> 'Method':
         cls_kwargs = dict(name=self.name, context=self.context, positional=self.positional)
         cls_kwargs.update(kwargs)
@@ -111,6 +120,14 @@ class ViewMethod(Method):
         method_params = self.validator.validate_method(method, params, **self.validator_args)
 
         return ft.partial(method, **method_params)
+
+    @property
+    def injected_params(self) -> Tuple[str, ...]:
+        # the context is passed to the view constructor: what the client does not supply is the instance parameter
+        if isinstance(inspect.getattr_static(self.view_cls, self.method_name, None), (staticmethod, classmethod)):
+            return ()
+
+        return tuple(list(inspect.signature(self.method).parameters)[:1])
 
     def copy(self, **kwargs: Any) -> 'ViewMethod':
         cls_kwargs = dict(name=self.name, context=self.context, positional=self.positional)
